@@ -241,6 +241,28 @@ func (o *OracleC05) AfterCall(n *Node, st *Step) {
 			}
 		}
 	}
+	// ... and whatever the node has seen before, the adjustment only ever shortens the wait:
+	// the timer armed by an initialisation never exceeds the full one (T primary, 2T backup).
+	// (Not judged in runs with clock steps: a backward step between the previous proposal and
+	// the Reset makes the elapsed time negative and the library adds it - observation O9.)
+	if d.BlockIndex > 1 && d.MyIndex >= 0 && !n.flagWO && d.ViewNumber == 0 && !s.sc.ClockJumps {
+		var last *Out
+		for i := range st.Outs {
+			if st.Outs[i].Kind == OTimerReset {
+				last = &st.Outs[i]
+			}
+		}
+		if last != nil && last.H == tip+1 && last.V == 0 && !d.CommitSent() && !d.PreCommitSent() && !d.RequestSentOrReceived() {
+			full := s.sc.TPBAt(tip + 1)
+			if s.sc.IndexAt(tip+1, n.ident) != primaryOf(tip+1, 0, nv) {
+				full <<= 1
+			}
+			if last.D > full {
+				o.viol(n, "timer_longer_than_full_after_reset", "height %d: the timer armed by the initialisation is %v, the full one is %v", tip+1, last.D, full)
+				return
+			}
+		}
+	}
 	if st.Op == OpReset && (tip+1 > st.PreBI+1) {
 		s.st.Exercised = true
 		s.note("reset_skipped_heights")
